@@ -33,6 +33,13 @@ func genCfg(r *gen.Rand) tcfg {
 		// neither Max nor MaxFunc configured: the documented default of 5 applies
 		cfg.MaxOmitted, cfg.Max, cfg.Dyn = true, 5, false
 	}
+	switch r.PickW(12, 1, 3) {
+	case 1:
+		// no config at all: the documented defaults
+		cfg = tcfg{NoConfig: true, Max: 5, E: 60, NKeys: cfg.NKeys}
+	case 2:
+		cfg.KeyView = true
+	}
 	return cfg
 }
 
@@ -371,7 +378,11 @@ func crossKey(e *ev.Env, c *ev.Case, hr *histRun, key int) {
 		a, b := hr.obs[i], obs[i]
 		if a.Entered != b.Entered || a.Status != b.Status || a.RetryAfter != b.RetryAfter ||
 			a.Limit != b.Limit || a.Remaining != b.Remaining || a.Reset != b.Reset {
-			e.Violation(c, "cross-key-interference|"+hr.cfg.algo()+"|"+hr.cfg.backend(),
+			class := hr.cfg.backend()
+			if hr.cfg.KeyView {
+				class = "key-is-view-of-request-memory"
+			}
+			e.Violation(c, "cross-key-interference|"+hr.cfg.algo()+"|"+class,
 				fmt.Sprintf("step %d (key %d) is answered differently when the other keys' requests are left out", i, key),
 				map[string]any{"config": hr.cfg, "config_text": hr.cfg.String(), "steps": hr.steps,
 					"together": describeSteps(hr.steps, hr.obs), "alone": describeSteps(hr.steps, obs)})
